@@ -55,14 +55,16 @@
 *)
 EXTENDS Operator
 
-VARIABLES roles, db, val, crash, phase, src, crash1
-rvars == <<roles, db, val, crash, phase, src, crash1>>
+CONSTANTS FailKinds      \* what a failing hook raises: names of exception classes (see Fail)
+
+VARIABLES roles, db, val, crash, phase, src, crash1, probes
+rvars == <<roles, db, val, crash, phase, src, crash1, probes>>
 allvars == <<vars, rvars>>
 
 NoConfigs == {}
 RunLabels == <<"", "EOL", "error">>
 RLabRank(l) == CHOOSE i \in 1..3 : RunLabels[i] = l
-NoCrash == [e |-> "none", i |-> 0, c |-> None, n |-> None, it |-> None, open |-> FALSE]
+NoCrash == [e |-> "none", i |-> 0, c |-> None, n |-> None, it |-> None, open |-> FALSE, kind |-> "none"]
 Running == crash.e = "none"
 
 NoDb   == [st |-> "none", ok |-> FALSE, cwd |-> FALSE, snaps |-> <<>>]
@@ -94,7 +96,7 @@ DbI == CHOOSE i \in 1..Len(roles) : roles[i] = "db"
 RInitWith(steps, sc, sn, stack, tight, skip) ==
     /\ InitWith(RunCfg(steps, sc, sn, stack, tight, skip, 0))
     /\ roles = stack /\ db = NoDb /\ val = 0 /\ crash = NoCrash
-    /\ phase = 1 /\ src = <<>> /\ crash1 = NoCrash
+    /\ phase = 1 /\ src = <<>> /\ crash1 = NoCrash /\ probes = <<>>
 
 (* ---------- restart ---------- *)
 NodeLess(c1, n1, c2, n2) == c1 < c2 \/ (c1 = c2 /\ n1 < n2)
@@ -119,19 +121,40 @@ HookEffect(i) ==
       [] roles[i] = "f"                  -> db' = db /\ val' = val + 1
       [] OTHER                           -> db' = db /\ val' = val
 
+(* ---------- loadState queries of a restarted run ---------- *)
+\* Operator.loadState(c, n) -> DatabaseInterface.loadState: the database being written is asked first, the reload database
+\* (cs["reloadDBName"]) only for steps the live one does not hold.  The first application interface asks for every node of the
+\* history at its end-of-cycle and end-of-life hooks of a restarted run (and puts the reactor back): the steps written by
+\* this run answer with this run's state -- although the reload file, a completed earlier run, holds the same steps with the
+\* earlier run's state --, later steps are still served by the reload file.  -1: no database holds the step.
+FirstF == CHOOSE i \in 1..Len(roles) : roles[i] = "f" /\ \A j \in 1..(i - 1) : roles[j] # "f"
+ProbeHere(i) == phase = 2 /\ i = FirstF /\ pc \in {"EOC", "EOL"}
+PlainVal(file, c, n) ==
+    LET I == {k \in 1..Len(file) : file[k].c = c /\ file[k].n = n /\ file[k].lab = ""} IN
+    IF I = {} THEN 0 - 1 ELSE file[CHOOSE k \in I : TRUE].val
+LoadStateVal(c, n) == IF PlainVal(db.snaps, c, n) # 0 - 1 THEN PlainVal(db.snaps, c, n) ELSE PlainVal(src, c, n)
+ProbeNow == LET v == VisitOrder(cfg.steps) IN
+            [e |-> pc, c |-> rc, n |-> rn, at |-> Len(log),
+             vals |-> [k \in 1..Len(v) |-> <<v[k][1], v[k][2], LoadStateVal(v[k][1], v[k][2])>>]]
+
 RCall == /\ Running /\ Call
          /\ lastc'.cv = TRUE                    \* environment: the couplers report convergence at once (cap = 1 anyway)
          /\ HookEffect(Head(queue))
+         /\ probes' = (IF ProbeHere(Head(queue)) THEN Append(probes, ProbeNow) ELSE probes)
          /\ UNCHANGED <<roles, crash, phase, src, crash1>>
 RDbWrite == /\ Running /\ DbWrite
             /\ db' = WriteSnap(db, "")
-            /\ UNCHANGED <<roles, val, crash, phase, src, crash1>>
+            /\ UNCHANGED <<roles, val, crash, phase, src, crash1, probes>>
 RControl == Running /\ Control /\ UNCHANGED rvars
-Fail == /\ Running /\ pc \in Events /\ queue # <<>> /\ roles[Head(queue)] = "f"
+\* kind: the class of what the hook raises -- an ordinary exception or one that is not an Exception (SystemExit from sys.exit,
+\* KeyboardInterrupt, another BaseException): Operator.__exit__ runs the error hooks whenever anything is passing through, so
+\* the file left behind does not depend on the kind
+Fail(kind) ==
+        /\ Running /\ pc \in Events /\ queue # <<>> /\ roles[Head(queue)] = "f"
         /\ crash' = [e |-> pc, i |-> Head(queue), c |-> rc, n |-> rn, it |-> (IF pc = "CPL" THEN iter ELSE None),
-                     open |-> db.st = "open"]
+                     open |-> db.st = "open", kind |-> kind]
         /\ db' = ErrorHook(db)
-        /\ UNCHANGED <<vars, roles, val, phase, src, crash1>>
+        /\ UNCHANGED <<vars, roles, val, phase, src, crash1, probes>>
 \* Operator!InitWith for the next state (TLC cannot assign through a primed operator application); RestartIsInit checks that
 \* the two agree
 ReInit(c) ==
@@ -145,11 +168,12 @@ Restart(sc, sn) ==
     /\ phase = 1 /\ cfg.sc = 0 /\ cfg.sn = 0 /\ db.cwd /\ roles[1] = "main"
     /\ <<sc, sn>> \in Nodes(cfg.steps) /\ <<sc, sn>> # <<0, 0>>
     /\ \/ pc = "Done" /\ Running                                         \* from a completed run: any later node
-       \/ ~Running /\ crash.open /\ sc = crash.c /\ sn = crash.n            \* from an aborted run: the node of the failure
+       \/ /\ ~Running /\ crash.open /\ sc = crash.c /\ sn = crash.n          \* from an aborted run: the node of the failure
+          /\ crash.kind = CHOOSE k \in FailKinds : TRUE                   \* (the file is the same for every kind: one is enough)
     /\ ReInit(RunCfg(cfg.steps, sc, sn, roles, cfg.tight, cfg.skip, 1))          \* the BOL hook of MainInterface sets the restart point
     /\ phase' = 2 /\ src' = db.snaps /\ crash1' = crash
-    /\ roles' = roles /\ db' = NoDb /\ val' = 0 /\ crash' = NoCrash
-RNext == RControl \/ RCall \/ RDbWrite \/ Fail
+    /\ roles' = roles /\ db' = NoDb /\ val' = 0 /\ crash' = NoCrash /\ probes' = <<>>
+RNext == RControl \/ RCall \/ RDbWrite \/ \E kind \in FailKinds : Fail(kind)
 RNextR == RNext \/ \E cn \in Nodes(cfg.steps) : Restart(cn[1], cn[2])
 
 (* ---------- the clauses ---------- *)
@@ -212,6 +236,19 @@ MarkAndPlace == (db.ok => db.st = "closed" /\ Finalised) /\ (db.cwd <=> db.st = 
 \* while the run is going the file holds exactly the nodes written so far
 RunningFileHoldsWrittenNodes ==
     (Running /\ db.st = "open") => DbKeys = MergedKeys \cup NodeKeys(WrittenNodes)
+
+\* "loading a snapshot returns the state as of that write": a step this run had written (or inherited) when the question was
+\* asked is answered from the live database with the state stored there, whatever the reload file says about that step
+ProbesServeLive ==
+    \A k \in 1..Len(probes) : \A j \in 1..Len(probes[k].vals) :
+        LET v == probes[k].vals[j]
+            I == {m \in 1..Len(db.snaps) : db.snaps[m].c = v[1] /\ db.snaps[m].n = v[2] /\ db.snaps[m].lab = "" /\ db.snaps[m].at < probes[k].at} IN
+        IF I # {} THEN v[3] = db.snaps[CHOOSE m \in I : TRUE].val ELSE v[3] = PlainVal(src, v[1], v[2])
+\* the two files really disagree about the steps both hold from the restart point on (otherwise the clause would be vacuous)
+RestartedStatesDiffer ==
+    (phase = 2 /\ pc = "Done") =>
+        \A m \in 1..Len(db.snaps) : (db.snaps[m].at >= 0 /\ db.snaps[m].lab = "" /\ PlainVal(src, db.snaps[m].c, db.snaps[m].n) # 0 - 1)
+                                       => db.snaps[m].val # PlainVal(src, db.snaps[m].c, db.snaps[m].n)
 
 FileView == [exists |-> db.cwd, ok |-> db.ok,
              snaps |-> [k \in 1..Len(db.snaps) |-> [c |-> db.snaps[k].c, n |-> db.snaps[k].n, lab |-> db.snaps[k].lab,
